@@ -127,6 +127,13 @@ def _thrower_kind(ctx: Ctx, fi: FuncInfo, call: ast.Call) -> str | None:
     if full in ("json.loads", "json.load"):
         return "json"
     if nm == "Decimal" and not in_pkg:
+        # Decimal(text) raises InvalidOperation on hostile text; Decimal(<int field>) / Decimal(<int literal>) cannot
+        a0 = call.args[0] if call.args else None
+        texty = a0 is None or isinstance(a0, ast.JoinedStr) or (isinstance(a0, ast.Call) and call_name(a0) in ("str", "format", "repr")) \
+            or (isinstance(a0, ast.Name) and a0.id in fi.params()) or (isinstance(a0, ast.Constant) and isinstance(a0.value, str)) \
+            or (isinstance(a0, ast.Name) and a0.id not in fi.params())
+        if not texty:
+            return None
         return "Decimal"
     if full in ("struct.unpack", "struct.unpack_from"):
         return "struct"
